@@ -146,7 +146,7 @@ def srcTlru (A : F64 F) (fw : Option F) : Tlru F where
 theorem find_tlru_eviction_key_eq (A : F64 F) (fw : Option F) (cfg : Cfg) (now : Nat)
     (hp : cfg.policy = .tlru) (hf : cfg.flavour ≠ .async) (m : Store K V) (q : List K)
     (hmax : ∀ hits el rk, A.lt ((srcTlru A fw).score cfg hits el rk) A.maxVal = true) :
-    find_tlru_eviction_key A ⟨fun b => now - b⟩ m (enumerate q) cfg.ttl fw = victim cfg (srcTlru A fw) now m q := by
+    find_tlru_eviction_key A ⟨fun b => now - b, now⟩ m (enumerate q) cfg.ttl fw = victim cfg (srcTlru A fw) now m q := by
   have hrank : ∀ i len, rank cfg i len = len - i := by
     intro i len; cases hfl : cfg.flavour <;> simp_all [rank]
   have hel : ∀ b, elapsedMs cfg now b = now - b := by
@@ -185,6 +185,7 @@ def natTop : F64 (Option Nat) where
   sub a b := do let x ← a; let y ← b; pure (x - y)
   mul a b := do let x ← a; let y ← b; pure (x * y)
   div a b := do let x ← a; let y ← b; pure (x / y)
+  powf a b := do let x ← a; let y ← b; pure (x ^ y)
   min a b := match a, b with | some x, some y => some (Nat.min x y) | some x, none => some x | none, y => y
   max a b := match a, b with | some x, some y => some (Nat.max x y) | _, _ => none
   lt a b := match a, b with | some x, some y => decide (x < y) | some _, none => true | none, _ => false
